@@ -243,7 +243,7 @@ CHECKS.update({
         'level': 'model_checking', 'design_ref': 'DESIGN.md section 2 (C02)',
         'technique': 'explicit-state exploration of the scheduler with an obligation monitor in the state; replay-based exploration of real executions against a from-scratch reference evaluation',
         'text': 'Abstract tier: state graph of the real scheduler/farm where every success reply reports every subset of the '
-        'algorithm's values as new; a monitor (part of the canonical state) records for each report which algorithms owe a '
+        'algorithm values as new; a monitor (part of the canonical state) records for each report which algorithms owe a '
         'release for which target (value-level declarations incl. feedback, from the engine description); a release '
         'without cause is a minimality violation, a quiescent state with an undischarged obligation a completeness '
         'violation. Store tier: every released unit is really executed (task message -> pl.worker.Context.run -> Task.do '
